@@ -1,14 +1,22 @@
 """pytest plugin (loaded with `-p harness.pytest_observer`, never installed into /repo): while the REPOSITORY'S OWN tests run,
-every call of a maze generator and of LatticeMaze.find_shortest_path is recorded (raw arguments, raw result) so that the
-executions the test-suite already produces are judged by the TLA+ oracles (GenOracle, Trace_SP) instead of by the tests' own
-weak assertions.  Recording is add-only wrapping of module / class attributes at pytest_configure time; files are per process."""
-import functools
+every call of a maze generator and of LatticeMaze.find_shortest_path is recorded (arguments at call time, result at return) so
+that the executions the test-suite already produces are judged by the TLA+ oracles (GenOracle, Trace_SP) instead of by the
+tests' own weak assertions.
+
+Observation is by sys.settrace on the code objects of the observed functions: NO object of the package is replaced (a first
+version wrapped GENERATORS_MAP entries; MazeDatasetConfig equality compares maze_ctor by identity, so wrapping made the
+repository's collection tests fail - instrumentation must not be visible to the code).  Only `call` events are delivered for
+other functions (f_trace_lines is switched off for the observed frames), files are per process (pool workers inherit the hook)."""
+import inspect
 import json
 import os
+import sys
+import threading
 
 _DIR = os.environ.get("VERIF_OBS_DIR")
 _CAP = int(os.environ.get("VERIF_OBS_CAP", "6000"))
 _count = {"gen": 0, "sp": 0}
+_TARGETS = {}
 
 
 def _emit(kind, rec):
@@ -25,56 +33,101 @@ def pytest_configure(config):
     os.makedirs(_DIR, exist_ok=True)
     import numpy as np
 
-    from harness import gens, mz
+    from harness import gens
     from maze_dataset.generation import generators as G
     from maze_dataset.maze.lattice_maze import LatticeMaze
 
-    def wrap_gen(name, fn):
-        @functools.wraps(fn)
-        def w(*a, **k):
-            out = fn(*a, **k)
-            try:
-                shape = a[0] if a else k.get("grid_shape")
-                r, c = int(shape[0]), int(shape[1])
-                kw = {kk: vv for kk, vv in k.items() if kk not in ("grid_shape", "lattice_dim")}
-                if len(a) <= 1 and r * c <= 196 and all(isinstance(v, (int, float, bool, type(None), tuple, list, np.ndarray)) for v in kw.values()):
-                    if "start_coord" in kw and kw["start_coord"] is not None:
-                        kw["start_coord"] = tuple(int(x) for x in kw["start_coord"])
-                    rec = gens.record(name, r, c, kw, out, n_ends=0)
-                    rec.pop("kw", None)
-                    rec["kwj"] = json.dumps({kk: (list(vv) if isinstance(vv, tuple) else vv) for kk, vv in kw.items()}, default=str)
-                    rec["src"] = "repo_tests"
-                    _emit("gen", rec)
-            except Exception:  # noqa: BLE001 - observation must never disturb the test
-                pass
-            return out
-
-        return w
-
     for name in list(G.GENERATORS_MAP):
-        orig = G.GENERATORS_MAP[name]
-        w = wrap_gen(name, orig)
-        G.GENERATORS_MAP[name] = w
-        setattr(G.LatticeMazeGenerators, name, staticmethod(w))
-
-    orig_sp = LatticeMaze.find_shortest_path
-
-    @functools.wraps(orig_sp)
-    def sp(self, c_start, c_end):
-        res, p = "ok", None
+        fn = G.GENERATORS_MAP[name]
+        fn = getattr(fn, "__func__", fn)
         try:
-            p = orig_sp(self, c_start, c_end)
-            return p
-        except BaseException as e:  # noqa: BLE001
-            res = "raise:" + type(e).__name__
-            raise
-        finally:
+            sig = inspect.signature(fn)
+            _TARGETS[fn.__code__] = ("gen", name, {k: p.default for k, p in sig.parameters.items()})
+        except (TypeError, ValueError, AttributeError):
+            pass
+    sp_fn = LatticeMaze.find_shortest_path
+    _TARGETS[getattr(sp_fn, "__func__", sp_fn).__code__] = ("sp", "find_shortest_path", {})
+
+    def same(a, b):
+        try:
+            return a is b or bool(np.all(a == b))
+        except Exception:  # noqa: BLE001
+            return False
+
+    def gen_call(name, defaults, L):
+        shape = L.get("grid_shape")
+        if shape is None or len(shape) != 2 or L.get("lattice_dim", 2) != 2:
+            return None
+        r, c = int(shape[0]), int(shape[1])
+        if not (1 <= r and 1 <= c and r * c <= 196):
+            return None
+        kw = {}
+        for k, dflt in defaults.items():
+            if k in ("grid_shape", "lattice_dim") or k not in L:
+                continue
+            v = L[k]
+            if dflt is not inspect.Parameter.empty and same(v, dflt):
+                continue
+            if not isinstance(v, (int, float, bool, type(None), tuple, list, np.ndarray, np.integer, np.floating)):
+                return None
+            if k == "start_coord" and v is not None:
+                v = tuple(int(x) for x in v)
+            elif isinstance(v, (np.integer, np.floating)):
+                v = v.item()
+            kw[k] = v
+        return r, c, kw
+
+    def sp_call(L):
+        self, s, e = L.get("self"), L.get("c_start"), L.get("c_end")
+        cl = np.asarray(self.connection_list)
+        if cl.ndim != 3 or cl.shape[0] != 2 or cl.dtype != bool:
+            return None
+        R_, C_ = cl.shape[1], cl.shape[2]
+        # the property speaks about lattice graphs and cells of the grid: other calls (tests of error paths) are not cases
+        if not all(0 <= int(x[0]) < R_ and 0 <= int(x[1]) < C_ for x in (s, e)) or cl[0, -1, :].any() or cl[1, :, -1].any() or R_ * C_ > 196:
+            return None
+        return dict(R=int(R_), C=int(C_), conn=cl.astype(int).tolist(), s=[int(s[0]), int(s[1])], e=[int(e[0]), int(e[1])])
+
+    def tracer(frame, ev, arg):
+        t = _TARGETS.get(frame.f_code)
+        if t is None:
+            return None
+        kind, name, defaults = t
+        try:
+            call = gen_call(name, defaults, frame.f_locals) if kind == "gen" else sp_call(frame.f_locals)
+        except Exception:  # noqa: BLE001 - observation must never disturb the test
+            call = None
+        if call is None:
+            return None
+        st = {"exc": None}
+
+        def local(fr, ev2, arg2):
             try:
-                cl = np.asarray(self.connection_list)
-                if cl.ndim == 3 and cl.shape[1] * cl.shape[2] <= 196:
-                    _emit("sp", dict(R=int(cl.shape[1]), C=int(cl.shape[2]), conn=cl.astype(int).tolist(), s=[int(c_start[0]), int(c_start[1])], e=[int(c_end[0]), int(c_end[1])], res=res,
-                                     path=[[int(a), int(b)] for a, b in p] if p is not None else [], src="repo_tests"))
+                if ev2 == "exception":
+                    st["exc"] = type(arg2[1]).__name__ if arg2 and arg2[1] is not None else getattr(arg2[0], "__name__", "Exception")
+                elif ev2 == "return":
+                    if kind == "gen":
+                        if arg2 is not None:
+                            r, c, kw = call
+                            rec = gens.record(name, r, c, kw, arg2, n_ends=0)
+                            rec.pop("kw", None)
+                            rec["kwj"] = json.dumps({kk: (list(vv) if isinstance(vv, tuple) else vv) for kk, vv in kw.items()}, default=str)
+                            rec["src"] = "repo_tests"
+                            _emit("gen", rec)
+                    else:
+                        rec = dict(call)
+                        if arg2 is not None:
+                            rec.update(res="ok", path=[[int(a), int(b)] for a, b in arg2])
+                        else:
+                            rec.update(res="raise:" + (st["exc"] or "Exception"), path=[])
+                        rec["src"] = "repo_tests"
+                        _emit("sp", rec)
             except Exception:  # noqa: BLE001
                 pass
+            return local
 
-    LatticeMaze.find_shortest_path = sp
+        frame.f_trace_lines = False
+        return local
+
+    sys.settrace(tracer)
+    threading.settrace(tracer)
